@@ -4,9 +4,10 @@ Require Import Bytes Lifecycle LifecycleSpec LifecycleChecker.
 From Coq Require Import List.
 Import ListNotations.
 
-(* The executable trace checker used by the correspondence suite is sound: a visible
-   trace it accepts is a trace of the machine. *)
+(* The executable trace checker used by the correspondence suite is sound: a trace it
+   accepts is the visible part of a trace of the machine. *)
 Theorem C07_accepts_sound : forall fuel tr,
-  accepts fuel tr = true -> exists s, wexec (init (trace_budget tr)) tr s.
+  accepts fuel tr = true ->
+  exists tr' s, visible tr' = tr /\ wexec (init (trace_budget tr)) tr' s.
 Proof. exact accepts_sound. Qed.
 Print Assumptions C07_accepts_sound.
